@@ -167,7 +167,8 @@ FormOK(form, x, calls, ret) == LET e == FormExpect(form, x) IN calls = e.calls /
 
 \* ============================ 3. pair / tuple as value sequences ===================================
 \* element type tags: "int", "trk" (non-trivial, copy + move), "mo" (move-only), "co" (copy-only),
-\* "lref" (int&), "cint" (int const).  p, q: value sequences (for "lref" the value of the referent).
+\* "lref" (int&), "cint" (int const); as SOURCE element of the converting operations also "tref" (Tracked&) and
+\* "ctref" (Tracked const&): forward<U> of an lvalue reference is an lvalue, so the referent is copied from, never moved.  p, q: value sequences (for "lref" the value of the referent).
 Movable(ty) == ty \in {"trk", "mo"}                     \* a move leaves MOVED behind
 ElemMoved(ty, v) == IF Movable(ty) THEN MOVED ELSE v
 MovedSeq(tys, vs) == [i \in 1..Len(vs) |-> ElemMoved(tys[i], vs[i])]
@@ -185,14 +186,15 @@ GetCat(ty, mode) == IF ty = "lref" THEN 1
 Cats(tys, mode) == [i \in 1..Len(tys) |-> GetCat(tys[i], mode)]
 
 TupOps == {"cmp", "ctor_copy", "ctor_move", "assign_copy", "assign_move", "assign_conv_copy", "assign_conv_move",
-           "ctor_conv_copy", "ctor_conv_move", "swap", "fswap", "get", "get_t", "apply", "cat", "mft", "sb", "make"}
+           "ctor_conv_copy", "ctor_conv_move", "swap", "fswap", "get", "get_t", "apply", "cat", "mft", "mft_il", "sb", "make"}
 
 \* ev fields: k ("pair"/"tuple"), ty, ty2, x = [p, q, i, mode, mode2]
 TupPre(k, ty, ty2, op, x) ==
     /\ op \in TupOps
     /\ Len(x.p) = Len(ty)
     /\ (op \in {"get", "get_t"} => x.i \in 0..(Len(ty) - 1) /\ x.mode \in 1..4)
-    /\ (op \in {"apply", "mft"} => x.mode \in 1..3)
+    /\ (op \in {"apply", "mft", "mft_il"} => x.mode \in 1..3)
+    /\ (op = "mft_il" => Len(ty) = 2)
     /\ (op = "cat" => x.mode \in {1, 3} /\ x.mode2 \in {1, 3} /\ Len(x.q) = Len(ty2))
     /\ (op \in {"cmp", "ctor_copy", "ctor_move", "assign_copy", "assign_move", "swap", "fswap"} => Len(x.q) = Len(ty))
 
@@ -212,6 +214,9 @@ TupExpect(k, ty, ty2, op, x) ==
       [] op = "apply" -> [calls |-> <<Rec(7, 0, 1, p, Cats(ty, x.mode))>>, ret |-> <<Res(7, 0, p)>> \o p]
       \* make_from_tuple<R>(t): R's constructor sees the same
       [] op = "mft" -> [calls |-> <<Rec(8, 0, 0, p, Cats(ty, x.mode))>>, ret |-> <<Res(8, 0, p)>> \o p]
+      \* make_from_tuple<R>(t) for an R with an (int, int) AND an initializer_list<int> constructor: the initialisation is
+      \* T(get<I>(t)...) with parentheses, so the (int, int) constructor runs (1), never the list constructor (2)
+      [] op = "mft_il" -> [calls |-> <<>>, ret |-> <<1>> \o p]
       \* tuple_cat(t1, t2): concatenation; an rvalue argument is moved from, an lvalue argument copied
       [] op = "cat" ->
             [calls |-> <<>>,
